@@ -3,7 +3,7 @@
 # it was written for (meta.json "property") against a scratch worktree with the change applied;
 # one summary line per change in $OUT (default /tmp/seedbatch.txt). Obsolete changes are skipped.
 OUT=${OUT:-/tmp/seedbatch.txt}
-cd /verif
+cd "$(dirname "$(readlink -f "$0")")/.."
 IDS="$@"; [ -z "$IDS" ] && IDS=$(ls seeded)
 for ID in $IDS; do
   P=$(python3 -c "import json;m=json.load(open('seeded/$ID/meta.json'));print('SKIP' if (m.get('obsolete') or m.get('obsolete_since') or m.get('superseded_by')) else m['property'])")
